@@ -466,10 +466,10 @@ func c15Accumulator(p *Program, r *Report) {
 			} else {
 				r.Fail("accumulator", key, fn.Pos(), "the reassembly target length is not FrameHeaderLengthV3AndHigher + header.BodyLength")
 			}
-		case "readSelfContainedSegment":
-			segmentDrain(r, "accumulator", fn)
 		}
 	}
+	segmentDrainFor(p, r, "accumulator", "CqlClientConnection")
+	segmentDrainFor(p, r, "accumulator", "CqlServerConnection")
 	_ = pk
 	_ = ast.IsExported
 }
@@ -573,11 +573,22 @@ func segmentDrain(r *Report, rule string, fn *ssa.Function) {
 		if !isK || k.Value == nil {
 			continue
 		}
+		// the test sits on a cycle: its true branch leads back to it
 		isLoop := false
-		for _, pr := range b.Preds {
-			if b.Dominates(pr) {
+		seen := map[*ssa.BasicBlock]bool{}
+		work := []*ssa.BasicBlock{b.Succs[0]}
+		for len(work) > 0 && !isLoop {
+			x := work[len(work)-1]
+			work = work[:len(work)-1]
+			if x == b {
 				isLoop = true
+				break
 			}
+			if seen[x] {
+				continue
+			}
+			seen[x] = true
+			work = append(work, x.Succs...)
 		}
 		if !isLoop {
 			continue
@@ -593,5 +604,55 @@ func segmentDrain(r *Report, rule string, fn *ssa.Function) {
 		r.OKf(rule, key, fn.Pos(), "envelopes are read from a self-contained segment until its payload is exhausted")
 	} else {
 		r.Fail(rule, key, fn.Pos(), "%s", why)
+	}
+}
+
+// segmentDrainFor: the method(s) of the connection type that wrap a segment's uncompressed payload
+// in a bytes.Reader (wherever that code lives after refactoring) drain it in a loop.
+func segmentDrainFor(p *Program, r *Report, rule, typeName string) {
+	named := p.LookupType("client", typeName).Type().(*types.Named)
+	n := 0
+	for _, fn := range p.ModuleFuncs() {
+		recv := fn.Signature.Recv()
+		if recv == nil || namedOf(recv.Type()) != named {
+			continue
+		}
+		wraps := false
+		for _, b := range fn.Blocks {
+			for _, ins := range b.Instrs {
+				if c, ok := ins.(*ssa.Call); ok {
+					if f := c.Call.StaticCallee(); f != nil && f.String() == "bytes.NewReader" && len(c.Call.Args) == 1 {
+						if u, ok := c.Call.Args[0].(*ssa.UnOp); ok {
+							if _, fld, ok := fieldAddrOf(u.X); ok && fld.Name() == "UncompressedData" {
+								wraps = true
+							}
+						}
+					}
+				}
+			}
+		}
+		if !wraps {
+			continue
+		}
+		// only the self-contained path reads envelopes straight from the payload
+		hasLenLoop := false
+		for _, b := range fn.Blocks {
+			for _, ins := range b.Instrs {
+				if c, ok := ins.(*ssa.Call); ok {
+					if f := c.Call.StaticCallee(); f != nil && f.String() == "(*bytes.Reader).Len" {
+						hasLenLoop = true
+					}
+				}
+			}
+		}
+		if !hasLenLoop && !strings.Contains(strings.ToLower(fn.Name()), "selfcontained") {
+			// e.g. the multi-segment accumulator peeks at the first header only
+			continue
+		}
+		n++
+		segmentDrain(r, rule, fn)
+	}
+	if n == 0 {
+		r.Fail(rule, typeName+" drain", named.Obj().Pos(), "no method of %s reads envelopes from a self-contained segment's payload (bytes.NewReader over Payload.UncompressedData with a Len() test)", typeName)
 	}
 }
